@@ -18,7 +18,9 @@
 #pragma once
 
 
+#include <algorithm>
 #include <unordered_map>
+#include <vector>
 
 
 namespace celma::common {
@@ -87,6 +89,37 @@ template< typename C1, typename C2>
    return hasIntersection( cont1.cbegin(), cont1.cend(), cont2.cbegin(),
       cont2.cend());
 } // hasIntersection
+
+
+/// Checks the complete contents of two containers for intersection, when the
+/// contents of the containers are not (necessarily) sorted.<br>
+/// The iterator based function above walks through both sequences like
+/// std::set_intersection<>() and so requires sorted sequences. Here, sorted
+/// copies of the contents are compared.
+///
+/// @tparam  C1
+///    The type of the first container.
+/// @tparam  C2
+///    The type of the second container.
+/// @param[in]  cont1
+///    The first container.
+/// @param[in]  cont2
+///    The second container.
+/// @return
+///    \c true if at least one (1) value exists in both containers.
+/// @since  1.47.0, 30.09.2026
+template< typename C1, typename C2>
+   bool hasIntersectionUnsorted( const C1& cont1, const C2& cont2)
+{
+   std::vector< typename C1::value_type>  sorted1( cont1.begin(), cont1.end());
+   std::vector< typename C2::value_type>  sorted2( cont2.begin(), cont2.end());
+
+   std::sort( sorted1.begin(), sorted1.end());
+   std::sort( sorted2.begin(), sorted2.end());
+
+   return hasIntersection( sorted1.cbegin(), sorted1.cend(), sorted2.cbegin(),
+      sorted2.cend());
+} // hasIntersectionUnsorted
 
 
 /// Checks 2 unordered maps for intersection.
